@@ -45,6 +45,16 @@ static const struct optpair ALPHA_T[] = {
     {35, 269}, {39, 12}, {282, 268}, {283, 270}, {65535, 1}, {1, 0},  {60, 0},    {4, 8},    {8, 255},
     {15, 14}, {17, 2},  {23, 3},  {35, 1034}, {258, 1},  {270, 14},  {2049, 0},  {65000, 13},
 };
+/* every option of the reference table at its smallest and largest legal length (and one inside): a message that the
+ * builder serialises with such an option must re-parse */
+static const struct optpair ALPHA_B[] = {
+    {1, 0},    {1, 8},    {3, 1},   {3, 255},  {4, 1},    {4, 8},   {5, 0},    {6, 0},     {6, 3},   {7, 0},    {7, 2},
+    {8, 0},    {8, 255},  {9, 0},   {9, 255},  {11, 0},   {11, 255}, {12, 0},  {12, 2},    {14, 0},  {14, 4},   {15, 0},
+    {15, 255}, {16, 1},   {17, 0},  {17, 2},   {19, 0},   {19, 3},  {20, 0},   {20, 255},  {23, 0},  {23, 3},   {27, 0},
+    {27, 3},   {28, 0},   {28, 4},  {31, 0},   {31, 3},   {35, 1},  {35, 1034}, {39, 1},   {39, 255}, {60, 0},  {60, 4},
+    {252, 1},  {252, 40}, {258, 0}, {258, 1},  {292, 0},  {292, 8},
+};
+#define NB ((int)(sizeof ALPHA_B / sizeof ALPHA_B[0]))
 #define NQ ((int)(sizeof ALPHA_Q / sizeof ALPHA_Q[0]))
 #define NT ((int)(sizeof ALPHA_T / sizeof ALPHA_T[0]))
 
@@ -991,6 +1001,11 @@ main(int argc, char **argv) {
     return 2;
   }
   /* alphabets must respect the RFC length ranges (so that a re-parse must accept) */
+  for (int i = 0; i < NB; i++)
+    if (!rm_opt_len_legal(0x01, ALPHA_B[i].num, ALPHA_B[i].len)) {
+      fprintf(stderr, "alphabet pair (%u,%u) outside RFC range\n", ALPHA_B[i].num, ALPHA_B[i].len);
+      return 2;
+    }
   for (int i = 0; i < NT; i++)
     if (!rm_opt_len_legal(0x01, ALPHA_T[i].num, ALPHA_T[i].len)) {
       fprintf(stderr, "alphabet pair (%u,%u) outside RFC range\n", ALPHA_T[i].num, ALPHA_T[i].len);
@@ -1018,7 +1033,7 @@ main(int argc, char **argv) {
   fast_stage = 1;
 #endif
   int T = vx_is_thorough();
-  struct space spaces[6];
+  struct space spaces[8];
   int ns = 0;
   if (!fast_stage) {
     int np = T ? 6 : 3;
@@ -1039,6 +1054,7 @@ main(int argc, char **argv) {
     l->nproto = np;
     l->total = (uint64_t)np * 2 * 4 * 3 * 2 * (sizeof LEN_TARGETS / sizeof LEN_TARGETS[0]);
     /* all insertion orders */
+    mk_opts_space(&spaces[ns++], "opts<=2of-length-bounds", ALPHA_B, NB, 2, np, TOK_S, 4, PAY_S, 2);
     mk_opts_space(&spaces[ns++], "opts<=3of14", ALPHA_Q, NQ, 3, np, TOK_Q, 9, PAY_Q, 5);
     if (T) /* the larger alphabet under the sanitizers too, with the four token-length forms */
       mk_opts_space(&spaces[ns++], "opts<=3of26/asan", ALPHA_T, NT, 3, np, TOK_S, 4, PAY_Q, 5);
